@@ -4,7 +4,9 @@ import (
 	"bytes"
 	"errors"
 	"fmt"
+	"io"
 	"strings"
+	"sync"
 	"testing"
 	"time"
 
@@ -160,6 +162,86 @@ func fragHandshakeCase(r *Recorder, k int, min, max byte, kk bool, authLen int, 
 	r.Case(name, true, "frag-handshake")
 }
 
+// gatedConn lets the first gateAfter bytes be read freely; later reads wait for the gate.
+type gatedConn struct {
+	*memConn
+	consumed, gateAfter int
+	gate                chan struct{}
+}
+
+func (g *gatedConn) Read(p []byte) (int, error) {
+	if g.consumed >= g.gateAfter {
+		<-g.gate
+	}
+	n, err := g.memConn.Read(p)
+	g.consumed += n
+	return n, err
+}
+
+// coalescedHandshakeCase: the opposite of fragmentation. The party that reads the last act of the
+// handshake gets to read only after its peer has also written its first record, so one Read can
+// return the end of the handshake together with the beginning of the record stream.
+func coalescedHandshakeCase(r *Recorder, kk bool, min, max byte, recLen int) {
+	pass := []byte("pairing-phrase-entropy")
+	cli := &hsSide{Priv: key(2101), Passphrase: pass, Min: min, Max: max}
+	srv := &hsSide{Priv: key(2102), Passphrase: pass, AuthData: patterned(40, 3), Min: min, Max: max}
+	if kk {
+		cli.Remote, srv.Remote = srv.Priv.PubKey(), cli.Priv.PubKey()
+	}
+	cli.build(true)
+	srv.build(false)
+	name := fmt.Sprintf("coalesced-hs:kk=%v:v=%d-%d:rec=%d", kk, min, max, recLen)
+	if cli.NewErr != nil || srv.NewErr != nil {
+		r.Violate("C16/setup", fmt.Sprint(cli.NewErr, srv.NewErr), name)
+		return
+	}
+	cc, sc := newMemPair()
+	gate := make(chan struct{})
+	first, last := cli, srv // first: finishes its handshake first and sends the record; last: reads the last act
+	var firstConn io.ReadWriter = cc
+	var lastConn io.ReadWriter = &gatedConn{memConn: sc, gateAfter: 50, gate: gate} // XX: act 1 (50 bytes) passes
+	if kk {
+		first, last = srv, cli
+		firstConn = sc
+		lastConn = &gatedConn{memConn: cc, gateAfter: 0, gate: gate}
+	}
+	record := patterned(recLen, 5)
+	var wg sync.WaitGroup
+	wg.Add(2)
+	go func() {
+		defer wg.Done()
+		defer close(gate)
+		if first.Err = first.Machine.DoHandshake(firstConn); first.Err != nil {
+			return
+		}
+		first.Machine.WriteMessage(record)
+		_, first.Err = first.Machine.Flush(firstConn)
+	}()
+	var got []byte
+	var readErr error
+	go func() {
+		defer wg.Done()
+		if last.Err = last.Machine.DoHandshake(lastConn); last.Err != nil {
+			return
+		}
+		done := make(chan struct{})
+		go func() { got, readErr = last.Machine.ReadMessage(lastConn); close(done) }()
+		select {
+		case <-done:
+		case <-time.After(10 * time.Second):
+			readErr = errors.New("ReadMessage blocks: the bytes of the record are gone")
+		}
+	}()
+	wg.Wait()
+	switch {
+	case cli.Err != nil || srv.Err != nil:
+		r.Violate("C16/handshake-coalesced-read", fmt.Sprintf("valid handshake failed when the last act and the first record arrive together: client %v, server %v", cli.Err, srv.Err), name)
+	case readErr != nil || !bytes.Equal(got, record):
+		r.Violate("C16/record-lost-after-handshake", fmt.Sprintf("the last act of the handshake and the first %d byte record were readable together: handshake ok on both sides, then ReadMessage: %v", recLen, readErr), name)
+	}
+	r.Case(name, true, "coalesced-handshake")
+}
+
 func TestC16(t *testing.T) {
 	r := NewRecorder(t, "C16")
 	defer r.Close(t)
@@ -215,6 +297,12 @@ func TestC16(t *testing.T) {
 	for i := 0; i < pick(20, 300); i++ {
 		fr := newRand(int64(1600 + i))
 		fragHandshakeCase(r, 0, 0, 2, i%3 == 0, 100+fr.Intn(2000), func() int { return 1 + fr.Intn(40) })
+	}
+	// the last act of the handshake and the first record in one Read
+	for _, cfg := range [][3]int{{0, 0, 0}, {1, 1, 0}, {2, 2, 0}, {0, 2, 0}, {2, 2, 1}} {
+		for _, l := range []int{0, 7, 300, 5000} {
+			coalescedHandshakeCase(r, cfg[2] == 1, byte(cfg[0]), byte(cfg[1]), l)
+		}
 	}
 	r.Sample(map[string]string{"op": "fl.seq 5 2:9,0:9,30:3,0:100", "go": "0:1:2;0:1:0;3:1:19;2:0:18"})
 }
